@@ -812,6 +812,44 @@ def r12_14(ctx, fx):
     ctx.floor(rid, n, 3, "operations with a one-operand and a two-operand overload")
 
 
+def r12_15(ctx):
+    from pplv import flow
+    rid = "R12.15"
+    ctx.rule(rid, "a stored linear form never describes a variable in terms of itself: a form recorded for variable v (`lf_store[v] = lf`) is a relation between the NEW value of v and the other variables, so every form that mentions v — the new one included, when the assignment was `v := f(v)` — must be invalidated AFTER the store: on every path from the store to the exit there is a discard_occurrences(lf_store, ..) call or an erase loop over the store. Invalidating first and storing afterwards keeps `x + 1` as the description of x after `x := x + 1`")
+    fx = ctx.extract([F.driver_unit("all_headers.cc", file_re=r"(Float_inlines|Float_templates|[A-Za-z_]*Floating_Point_Expression_inlines|[A-Za-z_]*Floating_Point_Expression_templates)\.hh")])
+    seen = set()
+    n = 0
+    for f in fx.functions:
+        if not f.flag("pattern") or (f.relfile, f.line) in seen or not f.cfg:
+            continue
+        seen.add((f.relfile, f.line))
+        for a in f.walk():
+            if a["k"] not in ("assign", "ocall") or a.get("op") != "=":
+                continue
+            lhs = f.deref(a["c"][-2]) if len(a.get("c", ())) >= 2 else None
+            if lhs is None or not re.match(r"^lf_store\[.*\]$", f.text(lhs).replace(" ", "")):
+                continue
+            n += 1
+            inst = "%s `%s` (line %s)" % (f.name, f.text(a)[:40], a.get("l"))
+
+            def invalidates(x):
+                if x["k"] in ("call", "mcall"):
+                    cn = f.call_name(x).lstrip("~")
+                    if cn == "discard_occurrences":
+                        return True
+                    if cn == "erase" and "lf_store" in f.text(x):
+                        return True
+                return False
+            # conservative: an erase inside a loop counts when the loop is on every path after the store
+            loops_after = [lp for lp in f.walk() if lp["k"] in ("for", "while") and lp.get("l", 0) > a.get("l", 0) and any(invalidates(x) for x in f.walk(lp))]
+            bad = flow.must_follow(f, a, invalidates)
+            if bad is None or loops_after:
+                ctx.ok(rid, inst, f.where(a))
+            else:
+                ctx.violation(rid, inst, f.where(a), "no invalidation of the forms that mention the variable follows the store (path %s): when the stored form mentions the variable itself it stays in the store and is read as a relation with the new value" % flow.render_path(f, bad))
+    ctx.floor(rid, n, 2, "stores into a linear-form abstract store")
+
+
 def run(ctx):
     ctx.explanation = ("C12 side discipline of the interval layer on the template patterns of Interval_* and Boundary_defs.hh: consistent (side, value, info) triples, "
                        "direction derived from the side of the bound written, results combined; decides the discipline, not the sign case analysis of mul/div or linearisation")
@@ -832,6 +870,7 @@ def run(ctx):
     r12_12(ctx, fx)
     r12_13(ctx, fx)
     r12_14(ctx, fx)
+    r12_15(ctx)
     from rules import idioms
     ctx.rule("R12.5", "copies agree: the per-format arms of the switches of the floating-point layer (compute_absolute_error caches one result per analysed format and reads the traits of that format) are copies of one another; in each arm the identifiers repeat exactly as in its siblings — the slot tested is the slot returned and the slot filled, and the three traits come from one struct")
     fxf = ctx.extract([F.driver_unit("all_headers.cc", file_re=r"(Float_(templates|inlines)|linearize|Linear_Form_templates|Interval_templates)\.hh")])
